@@ -186,6 +186,30 @@ def analyse_function(repo, fi):
                     if q in repo.funcs:
                         f.calls.add(q)
                     par = par.parent
+    # function VALUES (passed as arguments, stored in tables) may be called
+    # by the receiver: every reference to a nested or module-level function
+    # is a call edge
+    for c in body_nodes:
+        if isinstance(c, ast.Name) and isinstance(c.ctx, ast.Load):
+            q = fi.qual + '.<locals>.' + c.id
+            if q in repo.funcs:
+                f.calls.add(q)
+            par = fi.parent
+            while par is not None:
+                q = par.qual + '.<locals>.' + c.id
+                if q in repo.funcs:
+                    f.calls.add(q)
+                par = par.parent
+            if c.id not in f.locals:
+                res = repo.resolve_name(mi, c.id)
+                if res and res[0] == 'func':
+                    f.calls.add(res[1])
+        elif isinstance(c, ast.Attribute) and isinstance(c.ctx, ast.Load) \
+                and isinstance(c.value, ast.Name) and \
+                c.value.id not in f.locals:
+            res = repo.resolve_module_attr(mi, c.value.id, c.attr)
+            if res and res[0] == 'func':
+                f.calls.add(res[1])
     return f
 
 
@@ -279,6 +303,118 @@ def table_callees(repo):
     return out
 
 
+def default_escapes(repo):
+    """attributes that may hold a *shared default argument object*:
+    a parameter p has a mutable literal default (or carries the name of such
+    a parameter -- defaults are handed on by name through super().__init__)
+    and the function stores it with `X.attr = p`.
+    -> {attr: set of parameter names}"""
+    names = set()
+    for fi in repo.funcs.values():
+        a = fi.node.args
+        nd = len(a.defaults)
+        for i, p in enumerate(a.args):
+            di = i - (len(a.args) - nd)
+            if di >= 0 and isinstance(a.defaults[di], (ast.List, ast.Dict,
+                                                       ast.Set)):
+                names.add(p.arg)
+        for p, d in zip(a.kwonlyargs, a.kw_defaults):
+            if isinstance(d, (ast.List, ast.Dict, ast.Set)):
+                names.add(p.arg)
+    esc = {}
+    for fi in repo.funcs.values():
+        params = set(p.arg for p in fi.node.args.args +
+                     fi.node.args.kwonlyargs) & names
+        if not params:
+            continue
+        rebound = set()
+        for n in ast.walk(fi.node):
+            if isinstance(n, ast.Assign):
+                for t in n.targets:
+                    if isinstance(t, ast.Name):
+                        rebound.add(t.id)
+        for n in ast.walk(fi.node):
+            if isinstance(n, ast.Assign) and isinstance(n.value, ast.Name) \
+                    and n.value.id in params and n.value.id not in rebound:
+                for t in n.targets:
+                    if isinstance(t, ast.Attribute):
+                        esc.setdefault(t.attr, set()).add(n.value.id)
+    return esc
+
+
+def _strip_subscripts(n):
+    while isinstance(n, ast.Subscript):
+        n = n.value
+    return n
+
+
+def shared_default_mutations(fi, esc):
+    """in-place mutations of a list/dict reached through an attribute that
+    may hold a shared default argument object (directly or through a local
+    alias): [(lineno, text, why)].  Not flagged: the object was built in the
+    same function by a constructor call that passes the parameter
+    explicitly."""
+    node = fi.node
+    explicit = {}       # local name -> set of keywords passed explicitly
+    alias = {}          # local name -> attr
+    body = []
+
+    def walk(n):
+        for c in ast.iter_child_nodes(n):
+            if isinstance(c, (ast.FunctionDef, ast.Lambda, ast.ClassDef)):
+                continue
+            body.append(c)
+            walk(c)
+    walk(node)
+    for c in body:
+        if isinstance(c, ast.Assign) and len(c.targets) == 1 and \
+                isinstance(c.targets[0], ast.Name):
+            v = c.value
+            if isinstance(v, ast.Call):
+                kws = set(k.arg for k in v.keywords if k.arg)
+                if v.args:
+                    kws.add('*positional*')
+                explicit[c.targets[0].id] = kws
+            elif isinstance(v, ast.Attribute) and v.attr in esc:
+                alias[c.targets[0].id] = v.attr
+
+    def hit(container):
+        """container: expression of the mutated list/dict"""
+        c = _strip_subscripts(container)
+        if isinstance(c, ast.Attribute) and c.attr in esc:
+            base = c.value
+            if isinstance(base, ast.Name) and base.id in explicit:
+                kws = explicit[base.id]
+                if '*positional*' in kws or (esc[c.attr] & kws):
+                    return None
+            return 'attribute .%s may hold the shared default argument ' \
+                'object of parameter %s' % (c.attr, '/'.join(sorted(
+                    esc[c.attr])))
+        if isinstance(c, ast.Name) and c.id in alias:
+            return 'local alias of attribute .%s, which may hold a shared ' \
+                'default argument object' % alias[c.id]
+        return None
+    out = []
+    for c in body:
+        if isinstance(c, ast.AugAssign):
+            w = hit(c.target)
+            if w:
+                out.append((c.lineno, ast.unparse(c.target) + ' op= ...', w))
+        elif isinstance(c, (ast.Assign, ast.Delete)):
+            for t0 in c.targets:
+                for t in _flatten(t0):
+                    if isinstance(t, ast.Subscript):
+                        w = hit(t.value)
+                        if w:
+                            out.append((c.lineno, ast.unparse(t), w))
+        elif isinstance(c, ast.Call) and isinstance(c.func, ast.Attribute) \
+                and c.func.attr in MUTATORS:
+            w = hit(c.func.value)
+            if w:
+                out.append((c.lineno, ast.unparse(c.func) + '(...)', w))
+    return out
+
+
 ENTRY = ['yalafi.tex2txt.tex2txt',
          'yalafi.shell.proofreader.run_proofreader_options',
          'yalafi.shell.server.Handler.create_message']
@@ -331,12 +467,24 @@ def check(repo=None):
         reach.add(q)
         todo += [c for c in edges.get(q, ()) if c not in reach]
     obligations = []
+    esc = default_escapes(repo)
     for q in sorted(reach):
         f = facts[q]
+        shared = {}
+        for lineno, text, why in shared_default_mutations(repo.funcs[q],
+                                                          esc):
+            shared[(lineno, text)] = why
         for lineno, text, bad, why in f.stores:
             name = 'frame:call-local:%s:%s' % (q, text)
+            w2 = shared.pop((lineno, text), None)
+            if w2 and not bad:
+                bad, why = True, w2
             obligations.append((name, not bad, '%s line %d: %s' % (
                 repo.funcs[q].path, lineno, why)))
+        for (lineno, text), why in shared.items():
+            obligations.append(('frame:no-shared-default:%s:%s' % (q, text),
+                                False, '%s line %d: %s' % (
+                                    repo.funcs[q].path, lineno, why)))
         if q in ENTRY:
             # stores through the entry point's own parameters outlive the call
             params = set(p.arg for p in repo.funcs[q].node.args.args
@@ -361,7 +509,9 @@ def check(repo=None):
     info = {'functions_reachable': len(reach),
             'functions_total': len(repo.funcs),
             'table_callees': len(tables),
-            'store_statements_checked': len(obligations)}
+            'store_statements_checked': len(obligations),
+            'attributes_holding_default_arguments': {
+                k: sorted(v) for k, v in esc.items()}}
     return obligations, info, sorted(reach)
 
 
